@@ -1,14 +1,101 @@
-"""C09 - normalisation and moments of the real PhaseSpace"""
+"""C09 - normalisation and moments of the real PhaseSpace (API harness) + the renormalisation as main() schedules it (process level)"""
+import math
+import os
+import sys
+
+import vlib
 from checks import _api
+sys.path.insert(0, os.path.join(vlib.VERIF, "proc"))
+import pl  # noqa: E402
+
 LEVEL = "exploration"
+NSTEPS = 10
+
+
+def blob(n, scale):
+    """an off-centre Gaussian blob whose integral is far from one"""
+    v = []
+    for x in range(n):
+        for y in range(n):
+            q, p = (x - 0.5 * (n - 1)) * 12.0 / (n - 1), (y - 0.5 * (n - 1)) * 12.0 / (n - 1)
+            v.append(scale * math.exp(-0.5 * ((q - 0.7) ** 2 / 1.3 ** 2 + (p + 0.4) ** 2 / 0.9 ** 2)))
+    return v
+
+
+def process_level(res, tier):
+    """main() renormalises once before the first record when RenormalizeCharge >= 0 and every RenormalizeCharge-th step when it is positive: in the
+    records written at those steps every bunch holds exactly its share of the filling pattern and the train holds one."""
+    exe = pl.build.build_bin("plain")
+    wd = pl.workdir("c09p")
+    fills = {"single": [1e-3], "2:1": [2e-3, 1e-3], "2:0:1": [2e-3, 0, 1e-3], "1:1:0:3": [5e-4, 5e-4, 0, 1.5e-3]}
+    if vlib.deep(tier):
+        fills.update({"0:1": [0, 1e-3], "1:2:3:0:4:5": [1e-3, 2e-3, 3e-3, 0, 4e-3, 5e-3]})
+    ns = [16, 24] + ([33, 64] if vlib.deep(tier) else [])
+    starts = ["zoom1.7", "zoom0.8", "file0.5", "file1.7"]
+    renorms = [0, 1, 3, 4, 7] + ([2, 5, 10, 11] if vlib.deep(tier) else [])
+    physics = [["-d", 0.002, "--FPType", 3], ["-d", 0, "--FPType", 0]]
+    pl.warm(exe, [["-s", n, "-N", 8, "-T", 0.125, "--padding", 2, "-G", 0.03, "--UseCSR", "false", "-n", 1] for n in ns], "c09warm")
+    for n in ns:
+        for sc in (0.5, 1.7):
+            pl.write_start_h5(os.path.join(wd, "start%d_%s.h5" % (n, sc)), n, blob(n, sc))
+    jobs = [(n, f, s, r, ph) for n in ns for f in fills for s in starts for r in renorms for ph in range(len(physics))
+            if not (s.startswith("file") and len(fills[f]) > 1)]     # a start file holds one bunch
+
+    def do(j):
+        n, f, s, r, ph = j
+        a = ["-s", n, "-N", 8, "-T", NSTEPS / 8.0, "--padding", 2, "-G", 0.03, "--UseCSR", "false", "-n", 1, "--RenormalizeCharge", r, "-I"] + fills[f] + physics[ph]
+        a += ["--InitialDistZoom", s[4:]] if s.startswith("zoom") else ["-i", os.path.join(wd, "start%d_%s.h5" % (n, s[4:]))]
+        rr = pl.run(exe, a, wd, out="o_%d_%s_%s_%d_%d.h5" % (n, f.replace(":", ""), s, r, ph))
+        doc = pl.h5(rr["h5"], maxv=4000) if rr["rc"] == 0 else None
+        for ext in ("", ".cfg", ".log"):
+            try:
+                os.remove(rr["h5"] + ext)
+            except OSError:
+                pass
+        return j, rr, doc
+    drift_seen = 0
+    for j, rr, doc in pl.pmap(do, jobs):
+        n, f, s, r, ph = j
+        case = "process n=%d filling=%s start=%s renorm=%d physics=%s" % (n, f, s, r, "damped" if ph == 0 else "hamiltonian")
+        rp = dict(cmd=rr["cmd"])
+        if doc is None or "error" in doc or "/BunchPopulation/data" not in doc["datasets"]:
+            res.violate("C09/process/run-failed", case, "rc=%s %s" % (rr["rc"], rr["log"][-200:]), replay=rp)
+            continue
+        pop = pl.rows(doc, "/BunchPopulation/data")
+        res.eval(case, pl.chash(case, doc["datasets"]["/BunchPopulation/data"]["rowhash"]), trivial=False)
+        filled = [x for x in fills[f] if x > 0]
+        share = [x / sum(filled) for x in filled]
+        if len(pop) != NSTEPS + 1 or any(len(row) != len(share) for row in pop):
+            res.violate("C09/process/shape", case, "/BunchPopulation/data has shape %s, expected %d records of %d bunches (empty buckets hold no bunch)" % (doc["datasets"]["/BunchPopulation/data"]["dims"], NSTEPS + 1, len(share)), replay=rp)
+            continue
+        worst_off = 0.0
+        for k, row in enumerate(pop):
+            at = k == 0 or (r > 0 and k % r == 0)
+            dev = max(abs(x - sh) for x, sh in zip(row, share))
+            if at:
+                res.coverage["worst_population_minus_share_at_a_renormalisation_step"] = max(res.coverage.get("worst_population_minus_share_at_a_renormalisation_step", 0), dev)
+                if not dev <= 4e-6:
+                    res.violate("C09/process/population-is-not-the-share/%s/%s" % ("first-record" if k == 0 else "in-loop", "nb=1" if len(share) == 1 else "nb>1"), case,
+                                "record %d (a renormalisation step): populations %s, shares of the filling pattern %s" % (k, row, share), replay=rp)
+                    break
+            else:
+                worst_off = max(worst_off, dev)
+        drift_seen += worst_off > 1e-4
+    res.coverage["process_runs_whose_charge_really_drifted_between_renormalisations"] = drift_seen
+    if not drift_seen:
+        res.violate("C09/process/vacuous", "process level", "no run's charge drifted between renormalisations: the oracle would hold without any renormalisation", replay={})
+    res.bounds_done.append("process level: %d runs = grid sizes %s x filling patterns %s x starts %s x RenormalizeCharge %s x {damped, Hamiltonian}; every record at a renormalisation step: population of every bunch = its share within 4e-6" % (len(jobs), ns, sorted(fills), starts, renorms))
 
 
 def run(res, tier):
     res.assumptions += [
         "both axes have the same extent (main() can build nothing else; the Simpson weights are documented to assume it)",
         "moments are compared with analytic values only for Gaussians resolved by the grid (sigma >= 2.5 cells) and lying inside it (mean +- 4 sigma)",
-        "a bunch with a positive share holds some charge before normalisation"]
-    return _api.run(res, tier, ["C09_moments"])
+        "a bunch with a positive share holds some charge before normalisation",
+        "process level: /BunchPopulation is the Simpson integral main() records; 4e-6 covers the single-precision sum over at most 64 cells"]
+    c = _api.run(res, tier, ["C09_moments"])
+    process_level(res, tier)
+    return c
 
 
 replay = _api.replay
